@@ -478,9 +478,27 @@ mod imp {
         }
         let toks: Vec<&str> = answer.split(' ').collect();
         let n = o.obs.len();
-        let ok_states = toks.len() == n + 2 && toks[..n].iter().zip(&o.obs).all(|(a, b)| a == b);
+        // state tokens `ub/zlib/..`: equal, or equal except that the implementation's zlib output buffer is SHORTER than the model's
+        // while still holding the write position (a gentler growth policy uses less memory than the bound the theorems give; a
+        // longer buffer than the model's is a disagreement)
+        let state_ok = |m: &str, i: &str| -> bool {
+            if m == i { return true; }
+            let (mp, ip): (Vec<&str>, Vec<&str>) = (m.split('/').collect(), i.split('/').collect());
+            if mp.len() != ip.len() || mp.len() < 2 { return false; }
+            for (k, (a, b)) in mp.iter().zip(&ip).enumerate() {
+                if a == b { continue; }
+                if k != 1 { return false; }
+                let (mv, iv): (Vec<u64>, Vec<u64>) = (a.split(':').filter_map(|x| x.parse().ok()).collect(), b.split(':').filter_map(|x| x.parse().ok()).collect());
+                if !(mv.len() == 3 && iv.len() == 3 && mv[1] == iv[1] && mv[2] == iv[2] && iv[0] <= mv[0] && iv[0] >= iv[1]) { return false; }
+            }
+            true
+        };
+        let ok_states = toks.len() == n + 2 && toks[..n].iter().zip(&o.obs).all(|(a, b)| state_ok(a, b));
+        if ok_states && !toks[..n].iter().zip(&o.obs).all(|(a, b)| a == b) {
+            ctx.rep.count("datapath: model", "equal positions, zlib output buffer shorter than the model's");
+        }
         if !ok_states {
-            let at = toks.iter().zip(&o.obs).position(|(a, b)| a != b).unwrap_or(toks.len().min(n));
+            let at = toks.iter().zip(&o.obs).position(|(a, b)| !state_ok(a, b)).unwrap_or(toks.len().min(n));
             ctx.rep.violation("model", "datapath/state", &format!("after op {} ({}): implementation {} model {} ({} ops; ub = data_stream.len:prev_start:current_start, zlib = out_buffer.len:out_pos:read_pos)",
                 at, o.sim.ops.get(at).cloned().unwrap_or_default(), o.obs.get(at).cloned().unwrap_or_default(), toks.get(at).unwrap_or(&"?"), n), case());
             return;
